@@ -22,6 +22,19 @@ var commonMounts = []string{
 }
 
 var harnesses = map[string]*harnessConfig{
+	"h2": {
+		Package: "./cmd/gotelemetry", TestHosted: true,
+		// internal/counter is left uninstrumented here: the uploader only parses
+		// files, and a scheduling point at every atomic load of Parse would drown
+		// the file-system-call granularity this world is about.
+		RootPkgs: "./internal/telemetry,./internal/upload,.,./cmd/gotelemetry",
+		Mounts: append(append([]string{}, commonMounts...),
+			"internal/verifsim/ref/refcfg=sim/ref/refcfg",
+			"internal/verifsim/ref/refreport=sim/ref/refreport",
+			"cmd/gotelemetry=sim/harness/h2",
+			"internal/configstore=sim/shims/configstore",
+			"internal/counter=sim/shims/counter"),
+	},
 	"h1": {
 		Package:  "golang.org/x/telemetry/internal/verifsim/h1",
 		RootPkgs: "./internal/counter,./internal/mmap,./internal/telemetry",
@@ -143,5 +156,58 @@ var props = map[string]*propConfig{
 		Stub:        []string{"clock and AfterFunc simulated", "Go scheduler"},
 		Assumptions: []string{"uploader side of C09 (expiry test and week naming) is checked in the machine-world harness when claimed", "UTC only, as the code"},
 		Probes:      []string{"rotation-completed", "jump-kind-0", "jump-kind-1", "jump-kind-2"},
+	},
+	"C07": {
+		Harness: "h2", Level: "exploration",
+		Families:    []family{{Name: "concurrent-uploaders", Flags: map[string]string{"family": "plain"}, Quick: 2400, Thorough: 250000}},
+		QuickBudget: 100 * time.Second, ThoroughBudget: 25 * time.Minute, Chunk: 50,
+		Rule:        "one run = a machine history of 2..4 rounds over simulated weeks: counter files of 3 programs x versions x Go versions x platforms (expired, active, empty, unreadable, near-miss names), then 1..4 concurrent real upload.Run calls in mode on or local scheduled at file-system/HTTP-call granularity with tape-permuted map order, server fates from the tape; after each round the reference aggregation is compared with local.<week>.json for every week that had no report, the call log is checked for removals before a report exists and for any mutating call on active/unreadable files, and existing reports must keep their bytes; distinct = distinct event-log hash; non-trivial = at least one context switch between live uploaders",
+		Real:        []string{"internal/upload (all of it: findWork, reports, createReport, uploadReport; instrumented)", "internal/telemetry (mode file)", "internal/config", "internal/counter.Parse (uninstrumented in this world)", "cmd/gotelemetry runOn/runLocal/runOff/runClean", "Linux tmpfs (O_EXCL, link, rename semantics are the kernel's)"},
+		Stub:        []string{"internal/configstore.Download replaced by a stub that hands out the simulated config store's current version (the real one runs `go mod download`)", "upload server: a policy stub deciding each request's fate (200 / 4xx / 5xx / no answer / processed-but-answer-lost / duplicate delivery); its verdict on a given body is stable", "counter files are produced by the independent encoder (refformat)", "crypto/rand.Reader replaced so that X is chosen by the tape", "Go scheduler, wall clock"},
+		Assumptions: []string{"weeks mixing expired and unexpired files of one end date are not generated (ends are midnights)", "sums stay far below 2^62", "sampling, not enumeration"},
+		Probes:      []string{"week-reported"},
+	},
+	"C08": {
+		Harness: "h2", Level: "exploration",
+		Families: []family{
+			{Name: "kills", Flags: map[string]string{"family": "kills"}, Quick: 1500, Thorough: 150000},
+			{Name: "no-kill-liveness", Flags: map[string]string{"family": "nokill"}, Quick: 1500, Thorough: 150000},
+		},
+		QuickBudget: 100 * time.Second, ThoroughBudget: 13 * time.Minute, Chunk: 50,
+		Rule:        "as C07 in mode on with 2..4 concurrent uploaders per round and per-request server fates (200, 4xx, 5xx, no answer, processed-but-answer-lost, duplicate delivery); kills family: an uploader is killed after a file-system or HTTP call with probability 1/150 per marked call (nothing unwound: the lock file stays); checked over the server-side history: all accepted bodies of a week identical, no request for a week that was acknowledged and recorded as uploaded, after 5xx/no answer the receiving task leaves the report alone, after 4xx it does not mark it uploaded; no-kill family additionally: once the server answers 200, three more sequential runs deliver every sendable week, each acknowledged to a client exactly once",
+		Real:        []string{"internal/upload (all of it: findWork, reports, createReport, uploadReport; instrumented)", "internal/telemetry (mode file)", "internal/config", "internal/counter.Parse (uninstrumented in this world)", "cmd/gotelemetry runOn/runLocal/runOff/runClean", "Linux tmpfs (O_EXCL, link, rename semantics are the kernel's)"},
+		Stub:        []string{"internal/configstore.Download replaced by a stub that hands out the simulated config store's current version (the real one runs `go mod download`)", "upload server: a policy stub deciding each request's fate (200 / 4xx / 5xx / no answer / processed-but-answer-lost / duplicate delivery); its verdict on a given body is stable", "counter files are produced by the independent encoder (refformat)", "crypto/rand.Reader replaced so that X is chosen by the tape", "Go scheduler, wall clock"},
+		Assumptions: []string{"the server is adversarial about availability, not validity: it never accepts a body it has rejected, nor rejects one it has accepted", "liveness is claimed without kills only (a kill legitimately leaves a stale lock)", "kill = SIGKILL between two calls"},
+		Probes:      []string{"kill after http:post", "kill after fs:link"},
+	},
+	"C01": {
+		Harness: "h2", Level: "exploration",
+		Families:    []family{{Name: "configs-and-x", Flags: map[string]string{"family": "plain"}, Quick: 2400, Thorough: 250000}},
+		QuickBudget: 100 * time.Second, ThoroughBudget: 25 * time.Minute, Chunk: 50,
+		Rule:        "C07's histories in mode on with tape-generated upload configs (program/version/Go-version lists, bucketed counters, stacks, rates in {0, 1, 1/2, 1/2 +- 2^-20, 3/4}, sample rate) whose version changes between rounds, local names that are exact, wrong-bucket, prefix, suffix and literal-brace near-misses of approved names, stack counters whose first line is an approved plain counter, and X forced through crypto/rand.Reader to dyadic values equal and adjacent to the rates; every request body seen by the transport is compared field by field with refreport.Filter(aggregate of the week's files, config fetched by the run that built that report, the body's X), including that nothing else is in the body or URL",
+		Real:        []string{"internal/upload (all of it: findWork, reports, createReport, uploadReport; instrumented)", "internal/telemetry (mode file)", "internal/config", "internal/counter.Parse (uninstrumented in this world)", "cmd/gotelemetry runOn/runLocal/runOff/runClean", "Linux tmpfs (O_EXCL, link, rename semantics are the kernel's)"},
+		Stub:        []string{"internal/configstore.Download replaced by a stub that hands out the simulated config store's current version (the real one runs `go mod download`)", "upload server: a policy stub deciding each request's fate (200 / 4xx / 5xx / no answer / processed-but-answer-lost / duplicate delivery); its verdict on a given body is stable", "counter files are produced by the independent encoder (refformat)", "crypto/rand.Reader replaced so that X is chosen by the tape", "Go scheduler, wall clock"},
+		Assumptions: []string{"configs with duplicate names at different rates or malformed bucket syntax are not generated (the documentation does not order them)", "a program build without any data may or may not be listed"},
+		Probes:      []string{"week-reported"},
+	},
+	"C02": {
+		Harness: "h2", Level: "exploration",
+		Families:    []family{{Name: "modes-and-calendar", Flags: map[string]string{"family": "modes"}, Quick: 2400, Thorough: 250000}},
+		QuickBudget: 100 * time.Second, ThoroughBudget: 25 * time.Minute, Chunk: 50,
+		Rule:        "histories in which between rounds the mode changes (SetModeAsOf with back-dated opt-in dates, arbitrary bytes in the mode file, invalid modes) and counter-file begin/end, opt-in date and run time are placed on a simulated calendar; per request: the independently parsed mode is exactly on, the week is not in the future and after the opt-in date; per uploadable report: built in mode on, week not older than 21 days, X not above a positive sample rate, all data strictly after the opt-in date; rounds in mode off: no mutating call on and no change to any counter file or report; SetModeAsOf/Mode round trip and rejection of invalid modes leaving the bytes unchanged",
+		Real:        []string{"internal/upload (all of it: findWork, reports, createReport, uploadReport; instrumented)", "internal/telemetry (mode file)", "internal/config", "internal/counter.Parse (uninstrumented in this world)", "cmd/gotelemetry runOn/runLocal/runOff/runClean", "Linux tmpfs (O_EXCL, link, rename semantics are the kernel's)"},
+		Stub:        []string{"internal/configstore.Download replaced by a stub that hands out the simulated config store's current version (the real one runs `go mod download`)", "upload server: a policy stub deciding each request's fate (200 / 4xx / 5xx / no answer / processed-but-answer-lost / duplicate delivery); its verdict on a given body is stable", "counter files are produced by the independent encoder (refformat)", "crypto/rand.Reader replaced so that X is chosen by the tape", "Go scheduler, wall clock"},
+		Assumptions: []string{"the counter API's behaviour in mode off is exercised by H1 (Open does nothing); here the uploader side", "an unreadable mode file is modelled by content the parser cannot read, not by permissions (the sandbox runs as root)"},
+		Probes:      []string{"week-reported"},
+	},
+	"C19": {
+		Harness: "h2", Level: "exploration",
+		Families:    []family{{Name: "user-commands", Flags: map[string]string{"family": "user"}, Quick: 2400, Thorough: 250000}},
+		QuickBudget: 100 * time.Second, ThoroughBudget: 25 * time.Minute, Chunk: 50,
+		Rule:        "machine histories in which the user runs the real gotelemetry on / local / off / clean (their os.Exit paths simulated) between uploader rounds over directories populated by the simulation plus foreign files whose names match exactly, nearly (x.v1.count.bak, y.jsonx, z.v2.count, .json.swp, report.JSON) or not at all the data-file patterns, and sub-directories; after clean exactly the counter files and reports are gone and everything else hashes the same; a mode command leaves the file byte-identical when the mode is already the requested one, otherwise writes `<mode> <simulated UTC date>` which the library reads back",
+		Real:        []string{"internal/upload (all of it: findWork, reports, createReport, uploadReport; instrumented)", "internal/telemetry (mode file)", "internal/config", "internal/counter.Parse (uninstrumented in this world)", "cmd/gotelemetry runOn/runLocal/runOff/runClean", "Linux tmpfs (O_EXCL, link, rename semantics are the kernel's)"},
+		Stub:        []string{"internal/configstore.Download replaced by a stub that hands out the simulated config store's current version (the real one runs `go mod download`)", "upload server: a policy stub deciding each request's fate (200 / 4xx / 5xx / no answer / processed-but-answer-lost / duplicate delivery); its verdict on a given body is stable", "counter files are produced by the independent encoder (refformat)", "crypto/rand.Reader replaced so that X is chosen by the tape", "Go scheduler, wall clock"},
+		Assumptions: []string{"sub-directories do not carry data suffixes (whether a directory called x.json is a report is not decided by the statement)"},
+		Probes:      []string{"clean"},
 	},
 }
